@@ -1,6 +1,434 @@
-//! `vh limits`: see /verif/docs/MODULE_CONTRACT.md
+//! `vh limits`: read a compiled font back for the C19 check (spec/Limits.tla, checks/c19.py).
+//!
+//! stdin: ndjson requests
+//!   {"tag": "...", "font": "/path/out.ttf", "glyphs": ["a", ...], "locs": [[normalized coords], ...],
+//!    "pairs": [["a","b"], ...], "marks": [["base","mark"], ...]}
+//! stdout: one JSON line per request. Everything is *measured* from the binary (read-fonts / skrifa and a
+//! private decoder for the raw simple-glyph coordinate deltas); nothing is judged here. The classification
+//! of outcomes (Exact / Fallback / Wrapped / Clamped ...) is done by TLC on spec/LimitsObs.tla.
+//!
+//!   num_glyphs (maxp), loca_len, number_of_h_metrics, maxp{..}, os2{width_class, weight_class}, axes[..]
+//!   glyphs{name: {gid, advance (u16 from hmtx), lsb (i16 from hmtx), vadvance / tsb (vmtx, if any), kind, bbox,
+//!                 raw{dx:[i16..], dy:[i16..], points:[[x,y,on]..] accumulated in i32 WITHOUT wrapping, ends},
+//!                 components[{name, gid, dx, dy, by_point, xx, yx, xy, yy (raw 2.14 bits), flags}]}}
+//!   at[{loc, glyphs{name: {path (skrifa, unscaled, unhinted), advance = hmtx + trunc(HVAR delta),
+//!                          hvar_delta, skrifa_advance}}}]
+//!   pairs[{left, right, found, x_advance, var, deltas[per loc]}]         (GPOS PairPos format 1 and 2)
+//!   marks[{base, mark, found, base_anchor{x,y,format,dx[per loc],dy[per loc]}, mark_anchor{..}}]
+//!   gvar{name: [{peak:[..], deltas:[[point, dx, dy]..]}]}                (raw tuple deltas)
 
-pub fn run(_args: &[String]) -> i32 {
-    eprintln!("vh limits: not implemented yet");
-    2
+use std::collections::BTreeMap;
+use std::io::{BufRead, Write};
+
+use serde_json::{Map, Value, json};
+use skrifa::{
+    MetadataProvider,
+    raw::{
+        FontData, FontRef, ReadError, TableProvider,
+        tables::{
+            glyf::{Anchor, Glyph},
+            gpos::{AnchorTable, PairPos, PositionLookup, PositionSubtables, ValueRecord},
+            layout::DeviceOrVariationIndex,
+            variations::{DeltaSetIndex, ItemVariationStore},
+        },
+        types::{F2Dot14, GlyphId},
+    },
+};
+
+use crate::fontutil;
+
+/// Decode the coordinate deltas of a simple glyph exactly as stored (no wrapping on accumulation).
+fn raw_simple(bytes: &[u8]) -> Option<Value> {
+    let rd16 = |o: usize| -> Option<i16> { Some(i16::from_be_bytes([*bytes.get(o)?, *bytes.get(o + 1)?])) };
+    let ncont = rd16(0)?;
+    if ncont <= 0 {
+        return None;
+    }
+    let mut o = 10;
+    let mut ends = Vec::new();
+    for _ in 0..ncont {
+        ends.push(rd16(o)? as u16);
+        o += 2;
+    }
+    let npts = *ends.last()? as usize + 1;
+    let ilen = rd16(o)? as u16 as usize;
+    o += 2 + ilen;
+    let mut flags = Vec::with_capacity(npts);
+    while flags.len() < npts {
+        let f = *bytes.get(o)?;
+        o += 1;
+        flags.push(f);
+        if f & 0x08 != 0 {
+            let rep = *bytes.get(o)?;
+            o += 1;
+            for _ in 0..rep {
+                if flags.len() < npts {
+                    flags.push(f);
+                }
+            }
+        }
+    }
+    let mut read_axis = |short: u8, same: u8| -> Option<Vec<i32>> {
+        let mut v = Vec::with_capacity(npts);
+        for f in &flags {
+            let d: i32 = if f & short != 0 {
+                let b = *bytes.get(o)? as i32;
+                o += 1;
+                if f & same != 0 { b } else { -b }
+            } else if f & same != 0 {
+                0
+            } else {
+                let d = i16::from_be_bytes([*bytes.get(o)?, *bytes.get(o + 1)?]) as i32;
+                o += 2;
+                d
+            };
+            v.push(d);
+        }
+        Some(v)
+    };
+    let dx = read_axis(0x02, 0x10)?;
+    let dy = read_axis(0x04, 0x20)?;
+    let (mut x, mut y) = (0i32, 0i32);
+    let mut pts = Vec::with_capacity(npts);
+    for i in 0..npts {
+        x += dx[i];
+        y += dy[i];
+        pts.push(json!([x, y, flags[i] & 1]));
+    }
+    Some(json!({"dx": dx, "dy": dy, "points": pts, "ends": ends}))
+}
+
+fn var_delta(
+    dev: Option<Result<DeviceOrVariationIndex, ReadError>>,
+    ivs: Option<&ItemVariationStore>,
+    locs: &[Vec<F2Dot14>],
+) -> (bool, Vec<i32>) {
+    match (dev, ivs) {
+        (Some(Ok(DeviceOrVariationIndex::VariationIndex(vi))), Some(ivs)) => {
+            let idx = DeltaSetIndex { outer: vi.delta_set_outer_index(), inner: vi.delta_set_inner_index() };
+            (true, locs.iter().map(|c| ivs.compute_delta(idx, c).unwrap_or(i32::MIN)).collect())
+        }
+        _ => (false, locs.iter().map(|_| 0).collect()),
+    }
+}
+
+fn value_json(vr: &ValueRecord, data: FontData, ivs: Option<&ItemVariationStore>, locs: &[Vec<F2Dot14>]) -> Value {
+    let (var, deltas) = var_delta(vr.x_advance_device(data), ivs, locs);
+    json!({"x_advance": vr.x_advance().unwrap_or(0), "has_x_advance": vr.x_advance().is_some(),
+           "x_placement": vr.x_placement().unwrap_or(0), "var": var, "deltas": deltas})
+}
+
+fn anchor_json(a: &AnchorTable, ivs: Option<&ItemVariationStore>, locs: &[Vec<F2Dot14>]) -> Value {
+    match a {
+        AnchorTable::Format1(t) => json!({"format": 1, "x": t.x_coordinate(), "y": t.y_coordinate(),
+            "var": false, "dx": locs.iter().map(|_| 0).collect::<Vec<i32>>(), "dy": locs.iter().map(|_| 0).collect::<Vec<i32>>()}),
+        AnchorTable::Format2(t) => json!({"format": 2, "x": t.x_coordinate(), "y": t.y_coordinate(),
+            "var": false, "dx": locs.iter().map(|_| 0).collect::<Vec<i32>>(), "dy": locs.iter().map(|_| 0).collect::<Vec<i32>>()}),
+        AnchorTable::Format3(t) => {
+            let (vx, dx) = var_delta(t.x_device(), ivs, locs);
+            let (vy, dy) = var_delta(t.y_device(), ivs, locs);
+            json!({"format": 3, "x": t.x_coordinate(), "y": t.y_coordinate(), "var": vx || vy, "dx": dx, "dy": dy})
+        }
+    }
+}
+
+fn gpos_section(
+    font: &FontRef,
+    gid_of: &BTreeMap<String, u32>,
+    pairs: &[(String, String)],
+    marks: &[(String, String)],
+    locs: &[Vec<F2Dot14>],
+    out: &mut Map<String, Value>,
+) {
+    let mut pair_out: Vec<Value> = pairs
+        .iter()
+        .map(|(l, r)| json!({"left": l, "right": r, "found": false}))
+        .collect();
+    let mut mark_out: Vec<Value> = marks
+        .iter()
+        .map(|(b, m)| json!({"base": b, "mark": m, "found": false}))
+        .collect();
+    let ivs = font.gdef().ok().and_then(|g| g.item_var_store()).and_then(|r| r.ok());
+    let ivs = ivs.as_ref();
+    let Ok(gpos) = font.gpos() else {
+        out.insert("has_gpos".into(), json!(false));
+        out.insert("pairs".into(), json!(pair_out));
+        out.insert("marks".into(), json!(mark_out));
+        return;
+    };
+    out.insert("has_gpos".into(), json!(true));
+    let Ok(lookups) = gpos.lookup_list() else { return };
+    for lookup in lookups.lookups().iter().flatten() {
+        let Ok(subtables) = lookup.subtables() else { continue };
+        match subtables {
+            PositionSubtables::Pair(subs) => {
+                for sub in subs.iter().flatten() {
+                    for (k, (l, r)) in pairs.iter().enumerate() {
+                        if pair_out[k]["found"] == json!(true) {
+                            continue;
+                        }
+                        let (Some(&g1), Some(&g2)) = (gid_of.get(l), gid_of.get(r)) else { continue };
+                        let (g1, g2) = (GlyphId::new(g1), GlyphId::new(g2));
+                        match &sub {
+                            PairPos::Format1(t) => {
+                                let Some(ci) = t.coverage().ok().and_then(|c| c.get(g1)) else { continue };
+                                let Some(Ok(set)) = t.pair_sets().get(ci as usize).ok().map(Ok::<_, ReadError>) else {
+                                    continue;
+                                };
+                                for rec in set.pair_value_records().iter().flatten() {
+                                    if GlyphId::from(rec.second_glyph()) == g2 {
+                                        let v = value_json(rec.value_record1(), set.offset_data(), ivs, locs);
+                                        pair_out[k] = json!({"left": l, "right": r, "found": true, "format": 1, "value": v});
+                                    }
+                                }
+                            }
+                            PairPos::Format2(t) => {
+                                if t.coverage().ok().and_then(|c| c.get(g1)).is_none() {
+                                    continue;
+                                }
+                                let (Ok(cd1), Ok(cd2)) = (t.class_def1(), t.class_def2()) else { continue };
+                                let (c1, c2) = (cd1.get(g1), cd2.get(g2));
+                                let Ok(c1rec) = t.class1_records().get(c1 as usize) else { continue };
+                                let Ok(c2rec) = c1rec.class2_records().get(c2 as usize) else { continue };
+                                let v = value_json(c2rec.value_record1(), t.offset_data(), ivs, locs);
+                                pair_out[k] = json!({"left": l, "right": r, "found": true, "format": 2, "value": v});
+                            }
+                        }
+                    }
+                }
+            }
+            PositionSubtables::MarkToBase(subs) => {
+                for sub in subs.iter().flatten() {
+                    for (k, (b, m)) in marks.iter().enumerate() {
+                        let (Some(&gb), Some(&gm)) = (gid_of.get(b), gid_of.get(m)) else { continue };
+                        let (gb, gm) = (GlyphId::new(gb), GlyphId::new(gm));
+                        let Some(bi) = sub.base_coverage().ok().and_then(|c| c.get(gb)) else { continue };
+                        let Some(mi) = sub.mark_coverage().ok().and_then(|c| c.get(gm)) else { continue };
+                        let (Ok(marr), Ok(barr)) = (sub.mark_array(), sub.base_array()) else { continue };
+                        let Some(mrec) = marr.mark_records().get(mi as usize) else { continue };
+                        let class = mrec.mark_class();
+                        let Ok(manchor) = mrec.mark_anchor(marr.offset_data()) else { continue };
+                        let Ok(brec) = barr.base_records().get(bi as usize) else { continue };
+                        let Some(Ok(banchor)) = brec.base_anchors(barr.offset_data()).get(class as usize) else {
+                            continue;
+                        };
+                        mark_out[k] = json!({"base": b, "mark": m, "found": true, "class": class,
+                            "base_anchor": anchor_json(&banchor, ivs, locs),
+                            "mark_anchor": anchor_json(&manchor, ivs, locs)});
+                    }
+                }
+            }
+            _ => {}
+        }
+    }
+    out.insert("pairs".into(), json!(pair_out));
+    out.insert("marks".into(), json!(mark_out));
+}
+
+fn read_font(req: &Value) -> Result<Value, String> {
+    let path = req["font"].as_str().ok_or("no font")?;
+    let data = std::fs::read(path).map_err(|e| format!("cannot read {path}: {e}"))?;
+    let font = FontRef::new(&data).map_err(|e| format!("cannot parse font: {e}"))?;
+    let mut out = Map::new();
+    out.insert("size".into(), json!(data.len()));
+    let want: Vec<String> = serde_json::from_value(req["glyphs"].clone()).unwrap_or_default();
+    let locs_f: Vec<Vec<f64>> = serde_json::from_value(req["locs"].clone()).unwrap_or_default();
+    let locs: Vec<Vec<F2Dot14>> = locs_f.iter().map(|l| fontutil::f2dot14s(l)).collect();
+    let pairs: Vec<(String, String)> = serde_json::from_value(req["pairs"].clone()).unwrap_or_default();
+    let marks: Vec<(String, String)> = serde_json::from_value(req["marks"].clone()).unwrap_or_default();
+
+    let maxp = font.maxp().map_err(|e| format!("maxp: {e}"))?;
+    let ng = maxp.num_glyphs() as u32;
+    out.insert("num_glyphs".into(), json!(ng));
+    out.insert("maxp".into(), json!({"num_glyphs": ng, "max_points": maxp.max_points(),
+        "max_contours": maxp.max_contours(), "max_composite_points": maxp.max_composite_points(),
+        "max_composite_contours": maxp.max_composite_contours(),
+        "max_component_elements": maxp.max_component_elements(), "max_component_depth": maxp.max_component_depth()}));
+    if let Ok(h) = font.hhea() {
+        out.insert("number_of_h_metrics".into(), json!(h.number_of_h_metrics()));
+        out.insert("advance_width_max".into(), json!(h.advance_width_max().to_u16()));
+    }
+    if let Ok(o) = font.os2() {
+        out.insert("os2".into(), json!({"width_class": o.us_width_class(), "weight_class": o.us_weight_class()}));
+    }
+    let mut axes = Vec::new();
+    if let Ok(fvar) = font.fvar()
+        && let Ok(ax) = fvar.axes()
+    {
+        for a in ax {
+            axes.push(json!({"tag": a.axis_tag().to_string(), "min": a.min_value().to_f64(),
+                "default": a.default_value().to_f64(), "max": a.max_value().to_f64()}));
+        }
+    }
+    out.insert("axes".into(), json!(axes));
+    let tags: Vec<String> = font.table_directory.table_records().iter().map(|r| r.tag().to_string()).collect();
+    out.insert("tables".into(), json!(tags));
+
+    // names: the post table for small fonts; for big ones only the requested names are resolved
+    let names = fontutil::glyph_names(&font);
+    let mut gid_of: BTreeMap<String, u32> = BTreeMap::new();
+    for (i, n) in names.iter().enumerate() {
+        gid_of.entry(n.clone()).or_insert(i as u32);
+    }
+    let loca = font.loca(None).ok();
+    let glyf = font.glyf().ok();
+    out.insert("loca_len".into(), json!(loca.as_ref().map(|l| l.len())));
+    let hmtx = font.hmtx().ok();
+    let vmtx = font.vmtx().ok();
+    let hvar = font.hvar().ok();
+    let gvar = font.gvar().ok();
+    let mut gl = Map::new();
+    let mut gv = Map::new();
+    for name in &want {
+        let Some(&gid) = gid_of.get(name) else {
+            gl.insert(name.clone(), json!({"kind": "missing"}));
+            continue;
+        };
+        let g = GlyphId::new(gid);
+        let mut o = Map::new();
+        o.insert("gid".into(), json!(gid));
+        if let Some(h) = &hmtx {
+            o.insert("advance".into(), json!(h.advance(g)));
+            o.insert("lsb".into(), json!(h.side_bearing(g)));
+        }
+        if let Some(v) = &vmtx {
+            o.insert("vadvance".into(), json!(v.advance(g)));
+            o.insert("tsb".into(), json!(v.side_bearing(g)));
+        }
+        if let (Some(loca), Some(glyf)) = (&loca, &glyf) {
+            let (s, e) = (loca.get_raw(gid as usize), loca.get_raw(gid as usize + 1));
+            match loca.get_glyf(g, glyf) {
+                Ok(None) => {
+                    o.insert("kind".into(), json!("empty"));
+                }
+                Ok(Some(Glyph::Simple(sg))) => {
+                    o.insert("kind".into(), json!("simple"));
+                    o.insert("bbox".into(), json!([sg.x_min(), sg.y_min(), sg.x_max(), sg.y_max()]));
+                    o.insert("num_points".into(), json!(sg.num_points()));
+                    o.insert("num_contours".into(), json!(sg.number_of_contours()));
+                    let rf: Vec<Value> = sg.points().map(|p| json!([p.x, p.y, p.on_curve as u8])).collect();
+                    o.insert("readfonts_points".into(), json!(rf));
+                    if let (Some(s), Some(e)) = (s, e) {
+                        let bytes = glyf.offset_data().as_bytes();
+                        if let Some(b) = bytes.get(s as usize..e as usize) {
+                            o.insert("raw".into(), raw_simple(b).unwrap_or(Value::Null));
+                        }
+                    }
+                }
+                Ok(Some(Glyph::Composite(c))) => {
+                    o.insert("kind".into(), json!("composite"));
+                    o.insert("bbox".into(), json!([c.x_min(), c.y_min(), c.x_max(), c.y_max()]));
+                    let comps: Vec<Value> = c
+                        .components()
+                        .map(|k| {
+                            let (dx, dy, by_point) = match k.anchor {
+                                Anchor::Offset { x, y } => (x as i32, y as i32, false),
+                                Anchor::Point { base, component } => (base as i32, component as i32, true),
+                            };
+                            json!({"gid": k.glyph.to_u16(), "name": names.get(k.glyph.to_u16() as usize),
+                                "flags": k.flags.bits(), "dx": dx, "dy": dy, "by_point": by_point,
+                                "xx": k.transform.xx.to_bits(), "yx": k.transform.yx.to_bits(),
+                                "xy": k.transform.xy.to_bits(), "yy": k.transform.yy.to_bits()})
+                        })
+                        .collect();
+                    o.insert("components".into(), json!(comps));
+                }
+                Err(e) => {
+                    o.insert("kind".into(), json!("unreadable"));
+                    o.insert("message".into(), json!(e.to_string()));
+                }
+            }
+        }
+        gl.insert(name.clone(), Value::Object(o));
+        if let Some(gvar) = &gvar
+            && let Ok(Some(vd)) = gvar.glyph_variation_data(g)
+        {
+            let mut tuples = Vec::new();
+            for t in vd.tuples() {
+                let peak: Vec<f32> = t.peak().values().iter().map(|v| v.get().to_f32()).collect();
+                let deltas: Vec<Value> = t.deltas().map(|d| json!([d.position, d.x_delta, d.y_delta])).collect();
+                tuples.push(json!({"peak": peak, "all_points": t.has_deltas_for_all_points(), "deltas": deltas}));
+            }
+            gv.insert(name.clone(), json!(tuples));
+        }
+    }
+    out.insert("glyphs".into(), Value::Object(gl));
+    out.insert("gvar".into(), Value::Object(gv));
+
+    let mut at = Vec::new();
+    for (li, coords) in locs.iter().enumerate() {
+        let mut per = Map::new();
+        for name in &want {
+            let Some(&gid) = gid_of.get(name) else { continue };
+            let g = GlyphId::new(gid);
+            let mut o = Map::new();
+            o.insert("path".into(), json!(fontutil::draw(&font, gid, coords)));
+            let (sk_adv, _) = fontutil::h_metrics(&font, gid, coords);
+            o.insert("skrifa_advance".into(), json!(sk_adv));
+            if let Some(h) = &hmtx {
+                let raw = h.advance(g).map(|a| a as i64);
+                let d = hvar
+                    .as_ref()
+                    .and_then(|hv| hv.advance_width_delta(g, coords).ok())
+                    .map(|f| f.to_f64());
+                o.insert("hvar_delta".into(), json!(d));
+                o.insert("advance".into(), json!(raw.map(|r| r + d.unwrap_or(0.0) as i64)));
+            }
+            per.insert(name.clone(), Value::Object(o));
+        }
+        at.push(json!({"loc": locs_f[li], "glyphs": per}));
+    }
+    out.insert("at".into(), json!(at));
+    gpos_section(&font, &gid_of, &pairs, &marks, &locs, &mut out);
+    Ok(Value::Object(out))
+}
+
+pub fn run(args: &[String]) -> i32 {
+    let input: Box<dyn BufRead> = match args.first() {
+        Some(p) => match std::fs::File::open(p) {
+            Ok(f) => Box::new(std::io::BufReader::new(f)),
+            Err(e) => {
+                eprintln!("vh limits: cannot open {p}: {e}");
+                return 2;
+            }
+        },
+        None => Box::new(std::io::BufReader::new(std::io::stdin())),
+    };
+    let stdout = std::io::stdout();
+    for line in input.lines() {
+        let Ok(line) = line else { break };
+        if line.trim().is_empty() {
+            continue;
+        }
+        let req: Value = match serde_json::from_str(&line) {
+            Ok(v) => v,
+            Err(e) => {
+                eprintln!("vh limits: bad request: {e}");
+                return 2;
+            }
+        };
+        let tag = req["tag"].clone();
+        let res = std::panic::catch_unwind(|| read_font(&req));
+        let mut v = match res {
+            Ok(Ok(v)) => {
+                let mut m = v.as_object().cloned().unwrap_or_default();
+                m.insert("outcome".into(), json!("ok"));
+                Value::Object(m)
+            }
+            Ok(Err(e)) => json!({"outcome": "unreadable", "message": e}),
+            Err(p) => {
+                let msg = p
+                    .downcast_ref::<String>()
+                    .cloned()
+                    .or_else(|| p.downcast_ref::<&str>().map(|s| s.to_string()))
+                    .unwrap_or_default();
+                json!({"outcome": "panic", "message": msg})
+            }
+        };
+        v["tag"] = tag;
+        let mut lock = stdout.lock();
+        let _ = writeln!(lock, "{v}");
+        let _ = lock.flush();
+    }
+    0
 }
